@@ -184,6 +184,10 @@ V("C08", "primitive_type tests exact types only (sympy Half, Zero, ... "
   "if type(item) in [int, sympy.Rational, str] or is_sympy(item):",
   "if type(item) in [int, sympy.Rational, sympy.Integer, str]:",
   "C08.scalar-recognised")
+V("C08", "padding length recognised by python class only", E,
+  "    if vy_type(rhs) == NUMBER_TYPE:\n        return lhs.ljust(int(rhs), other)",
+  "    if isinstance(rhs, int):\n        return lhs.ljust(int(rhs), other)",
+  "C08.number-arms-recognise-every-class")
 V("C08", "vy_type forgets sympy numbers", E,
   "in (int, complex, float) or is_sympy(item):",
   "in (int, complex, float, sympy.Rational, sympy.Integer):",
